@@ -889,6 +889,7 @@ def run(ctx):
           "model_out_of_fuel": 0, "nested_checked": 0, "layout_grammars": 0, "unmodelled_actions": 0,
           "fly_raised_before_syntax_error": 0}
     probe_action_history(ctx, st)
+    probe_imported_alternatives(ctx, st)
     mcases = []
     meta = []
     wsl = [ord(c) for c in WS]
@@ -1139,6 +1140,67 @@ def probe_action_history(ctx, st):
         ctx.known_finding(KF_HIST, "semantic actions are stored on the shared Grammar symbols: " + "; ".join(probs))
     elif probs:
         ctx.violation("action history: " + "; ".join(probs), {"grammar": text, "input": "a"}, key="hist")
+
+
+def probe_imported_alternatives(ctx, st):
+    """a list of per-alternative actions picks the action of the alternative that was reduced, also when
+    rules of an imported file share their bare name with rules of the importing file"""
+    import itertools
+    import os
+    import shutil
+    import tempfile
+    from parglare import GLRParser, Grammar, Parser
+    from lib import impl
+    d = tempfile.mkdtemp(prefix="c09imp")
+    n = 0
+    try:
+        with open(os.path.join(d, "base.pg"), "w") as f:
+            f.write("Item: 'p' | 'q' Tail | 'r';\nTail: 't' | EMPTY;\n")
+        with open(os.path.join(d, "root.pg"), "w") as f:
+            f.write("import 'base.pg' as base;\nS: Item base.Item Tail;\nItem: 'x' | 'y';\nTail: 'u' | 'v';\n")
+
+        def tag(t):
+            return lambda _, nodes: t
+        actions = {"Item": [tag("root-x"), tag("root-y")], "base.Item": [tag("b-p"), tag("b-q"), tag("b-r")],
+                   "Tail": [tag("root-u"), tag("root-v")], "base.Tail": [tag("b-t"), tag("b-e")]}
+        want_item = {"x": "root-x", "y": "root-y"}
+        want_base = {"p": "b-p", "q": "b-q", "qt": "b-q", "r": "b-r"}
+        want_tail = {"u": "root-u", "v": "root-v"}
+        for route in range(3):
+            with impl.time_limit(30), impl.quiet():
+                g = Grammar.from_file(os.path.join(d, "root.pg"))
+                g.file_path = None
+                if route == 0:
+                    run1 = Parser(g, actions=actions).parse
+                elif route == 1:
+                    p1 = Parser(g, actions=actions, build_tree=True)
+                    run1 = lambda w, p1=p1: p1.call_actions(p1.parse(w))       # noqa
+                else:
+                    p2 = GLRParser(g, actions=actions)
+                    run1 = lambda w, p2=p2: p2.call_actions(p2.parse(w)[0])    # noqa
+            for a, b, c in itertools.product(want_item, want_base, want_tail):
+                w = " ".join([a] + list(b) + [c])
+                n += 1
+                try:
+                    with impl.time_limit(10):
+                        r = run1(w)
+                except BaseException as e:  # noqa
+                    r = "exc:" + type(e).__name__
+                want = [want_item[a], want_base[b], want_tail[c]]
+                if r != want:
+                    ctx.violation("per-alternative action lists in a grammar with imports: %r gives %r, expected %r "
+                                  "(route %s)" % (w, r, want, ["on-the-fly", "call_actions", "GLR"][route]),
+                                  {"files": {"base.pg": "Item: 'p' | 'q' Tail | 'r'; Tail: 't' | EMPTY;",
+                                             "root.pg": "import 'base.pg' as base; S: Item base.Item Tail; "
+                                                        "Item: 'x' | 'y'; Tail: 'u' | 'v';"},
+                                   "actions": "one tagging action per alternative of Item, base.Item, Tail, base.Tail",
+                                   "input": w}, key="imp-alt-%d" % route)
+                    break
+    except BaseException as e:  # noqa
+        ctx.violation("imported-alternatives probe raised %s: %s" % (impl.exc_kind(e), str(e)[:200]), {}, key="imp-alt-exc")
+    finally:
+        shutil.rmtree(d, ignore_errors=True)
+    st["imported_alternative_probes"] = n
 
 
 KF_NONE = "KF-C09-collect-drops-none"
